@@ -711,3 +711,29 @@ func (s *Sched) liveLocked(p *Proc) int {
 	}
 	return n
 }
+
+// ProcByPid looks a simulated process up.
+func (s *Sched) ProcByPid(pid int) *Proc {
+	s.mu.Lock()
+	defer s.mu.Unlock()
+	for _, p := range s.procs {
+		if p.Pid == pid {
+			return p
+		}
+	}
+	return nil
+}
+
+// Procs returns the simulated processes created so far.
+func (s *Sched) Procs() []*Proc {
+	s.mu.Lock()
+	defer s.mu.Unlock()
+	return append([]*Proc(nil), s.procs...)
+}
+
+// Aborted reports whether the run is being torn down.
+func (s *Sched) Aborted() bool {
+	s.mu.Lock()
+	defer s.mu.Unlock()
+	return s.aborted
+}
